@@ -42,6 +42,7 @@ texts = st.one_of(
     G.plain_text,
     st.sampled_from(G.WRAPPED), st.sampled_from(["lyric ", "section ", ""]).flatmap(
         lambda pre: st.sampled_from(G.WRAPPED).map(lambda w: pre + w)),
+    st.sampled_from(G.KNOWN_GLOBAL_EVENTS),
     # names with a meaning to the games (candidates for special treatment)
     st.sampled_from(["end", "end", "music_start", "music_end", "phrase_start", "phrase_end", "coda", "idle", "play",
                      "crowd_lighters_fast", "section end", "lyric end", "End", "the end", "solo", "soloend",
@@ -90,6 +91,20 @@ def _sections(draw, ctx):
     for tk, tx in zip(ticks, tlist):
         lines.append({"lp": draw(_pad), "z": draw(st.sampled_from([0, 0, 0, 2])), "tick": tk, "text": tx,
                       "rp": draw(_pad)})
+    # twins: the same event again (same tick, same text), and near-twins that differ by letter case, a
+    # trailing blank or surrounding blanks only -- every line is an event of its own, carried verbatim
+    if not silent and draw(st.integers(0, 2)) == 0:
+        out = []
+        for ln in lines:
+            out.append(ln)
+            if '"' not in ln["text"] and draw(st.integers(0, 4)) == 0:
+                how = draw(st.integers(0, 4))
+                tx = ln["text"]
+                tx2 = [tx, tx.swapcase(), tx + " ", tx.strip(), tx.title()][how]
+                out.append(dict(ln, text=tx2, lp=draw(_pad)))
+        lines = out
+        ticks = [ln["tick"] for ln in lines]
+        n = len(lines)
     # size amplification: one section in eight is LONG (130..1000 lines): the drawn block is repeated
     # with shifted ticks, so that anything that behaves differently after N lines is reached
     if draw(st.integers(0, 7)) == 0:
